@@ -645,10 +645,14 @@ class Executor:
             raise Unsupported("PtrMetadata of %r" % (v,))
         if t.startswith("&"):
             rest = t[1:].strip()
+            is_mut = rest.startswith(("mut ", "raw mut "))
             for p in ("mut ", "raw const ", "raw mut ", "fake shallow ", "fake "):
                 if rest.startswith(p):
                     rest = rest[len(p):]
             steps = self.parse_place(rest)
+            if is_mut and getattr(self, "track_mut_borrows", False) and len(steps) >= 3 and steps[1][0] == "deref":
+                # a mutable borrow of a field behind a pointer local (`&mut (*_1).k`): recorded for frame conditions
+                st.events.append(Event("mut-borrow", [steps[0][1], [x[1] for x in steps[2:] if x[0] == "field"], len(st.frames)], None, len(st.pc)))
             if len(steps) == 1:
                 return Ref("local", (len(st.frames) - 1, steps[0][1]))
             if steps[-1][0] == "deref" and len(steps) == 2:
